@@ -81,6 +81,10 @@ CHECKS["C04"] = dict(category="translation_validation",
    technique="the emitted C is compiled with ASan+UBSan and the generator's own sizing macros, driven with the same external events through null-datamodel callbacks, and its observable trace (dequeued events, logs of every content block, configuration after every micro-step) is compared with the Lean model of the interpreter (itself tied to the compiled interpreter by C01) on random and exhaustive small charts",
    text="Per document and event history the generated machine must reproduce the interpreter's observable behaviour, and the sanitizers decide the 'never reads or writes outside the arrays it declares' part for the executions run. No theorem about the emitted step function exists (a Lean model of the emitted algorithm over the C05 tables is the planned route): the Lean model serves as the oracle, the verdict is per run - translation validation by differential execution.",
    design_ref="6 / C04", note="Trusted: gcc, the sanitizers, gen/cdriver.c (callbacks), Model.Large as oracle.")
+CHECKS["C06"] = dict(category="translation_validation",
+   technique="the emitted Promela is executed by spin's simulator; its TRACE_EXECUTION lines are mapped to the trace alphabet (dequeued events, exits, entries, transitions, logs) and compared with the Lean model of the interpreter on random promela-datamodel charts; the interpreter with the promela datamodel is compared with the same model in the same run",
+   text="Per document the model's execution must visit what the interpreter visits, in the same order. The emitted model has one process and no environment, so one simulation is every execution. No theorem about the emitted model exists (the planned route is a Lean model of the emitted step over the C05 tables, shared with C04): the verdict is per document by differential execution - translation validation.",
+   design_ref="6 / C06", note="Trusted: spin 6.5 simulation, the mapping of trace lines (checks/c06.py), Model.Large as oracle.")
 PENDING = {}   # id -> reason (filled while the framework is being built)
 
 def main():
